@@ -56,6 +56,11 @@ Theorem C07_general_type_table : forall v31 o a b, gc_defined v31 o a b = gc_spe
 Proof. intros v31 o a b. destruct v31, o, a, b; reflexivity. Qed.
 Print Assumptions C07_general_type_table.
 
+(* and with the XPath 1.0 compatibility mode switched on *)
+Theorem C07_general_type_table_compat : forall v31 o a b, gc_compat_defined v31 o a b = gc_compat_spec v31 o a b.
+Proof. intros v31 o a b. destruct v31, o, a, b; reflexivity. Qed.
+Print Assumptions C07_general_type_table_compat.
+
 Example C07_nonvacuous : ebv [IStr 0] = EBV false /\ ebv [INode; IOther] = EBV true /\ ebv [INum false; INum false] = FORG0006 /\
   vc_defined true Lt TInt TDbl = true /\ vc_defined false Eq TBool TInt = false /\ vc_defined true Lt THex THex = true /\
   vc_defined false Lt THex THex = false /\ general Z Z.ltb [5; 1]%Z [0; 3]%Z = true.
